@@ -41,6 +41,9 @@ ASSUMPTIONS = [
     'attribute names; 1-d data shorter than a nested (kind 2) key (the code writes a prefix, then raises); '
     'for (..., key) writes only scalars and 1-d data of the matching length; vectors longer than the row; '
     'repeated labels in the phases given to MaterialIndexer.blank',
+    'modelled indexers: ChemicalMolarFlowIndexer and MolarFlowIndexer (group_compositions = molar compositions); '
+    'SplitIndexer, mass/volumetric indexers and wt=True group compositions are not modelled; index_overlap is '
+    'exercised through copy_like / mix_from([self, other]) between single-phase indexers only',
     'the order of index_overlap\'s CAS tuple (insertion order of the sparse dict) is modelled as ascending '
     'position: by cache_transparent it cannot influence any result',
     'the model is written to the FIXED behaviour of fixes_proposed/C10-1..C10-4 (trim_cache, index_overlap kind, '
@@ -81,8 +84,8 @@ def setup():
 
 
 def budget(tier):
-    return {'quick': dict(seconds=55, cases=176, shrink_s=20, search_s=0),
-            'thorough': dict(seconds=400, cases=2400, shrink_s=60, search_s=0)}[tier]
+    return {'quick': dict(seconds=40, cases=400, shrink_s=20, search_s=0),
+            'thorough': dict(seconds=360, cases=9600, shrink_s=60, search_s=0)}[tier]
 
 
 # --------------------------------------------------------------------------
@@ -189,6 +192,7 @@ class ChemSet:
     def __init__(self, recipe):
         self.recipe = recipe           # list of recipe tokens
         self.defs = []                 # successful ('alias', id, alias) / ('group', name, ids, comp)
+        self.known = {}                # chemical name -> position, as first observed
         self.real = None
         self.specs = None              # [(ID, CAS, names)]
         self._fresh = None
@@ -375,6 +379,7 @@ class Universe:
                         fail('compile:name-dropped', f'name {n!r} of chemical {k} alone is not accepted')
                 if sorted(cs.real.get_aliases(ID)) != sorted(x for x, p in table.items() if p == k):
                     fail('compile:aliases', f'get_aliases({ID!r}) differs from the names resolving to {k}')
+            cs.known = {n: p for n, p in table.items() if isinstance(p, int)}
             self.tags.add(f'chems:{len(cs.specs)}')
             return self.chems_line(cs), 'ok ' + ' '.join(ans)
 
@@ -388,6 +393,8 @@ class Universe:
                 return line, 'err=' + err_name(e)
             cs.defs.append(('alias', ID, a)); cs._fresh = None
             self.tags.add('alias:ok')
+            self.names_stay(cs, fail, 'alias')
+            cs.known[a] = cs.real.index(a)
             if cs.real.index(a) != cs.real.index(ID):
                 fail('alias:position', f'{a!r} resolves to {cs.real.index(a)}, {ID!r} to {cs.real.index(ID)}')
             return line, f'ok {cs.real.index(a)}'
@@ -405,6 +412,7 @@ class Universe:
                 return line, 'err=' + err_name(e)
             cs.defs.append(('group', name, ids, comp)); cs._fresh = None
             self.tags.add('group:redefined' if redefinition else 'group:ok')
+            self.names_stay(cs, fail, 'group')
             p = cs.real.get_index(name)
             return line, 'ok ' + (','.join(str(x) for x in p) if p else '-')
 
@@ -515,6 +523,16 @@ class Universe:
 
         raise ValueError('unknown op ' + line)
 
+    @staticmethod
+    def names_stay(cs, fail, op):
+        """every name of a chemical keeps its single position when another name is defined"""
+        for n, p in cs.known.items():
+            try: q = cs.real.index(n)
+            except Exception: q = None
+            if q != p:
+                fail(f'{op}:moved-name', f'name {n!r} resolved to {p} before this definition and to {q} after it')
+                break
+
     def chems_line(self, cs):
         return 'chems ' + ' '.join(f'{enc(ID)}|{cas}|{",".join(enc(n) for n in names)}' for ID, cas, names in cs.specs)
 
@@ -605,7 +623,14 @@ def run_ops(ops):
     model_in, outs, failures = [], [], []
     good = False
     for i, line in enumerate(ops):
-        mi, o = U.apply(line, i, failures)
+        try:
+            mi, o = U.apply(line, i, failures)
+        except Exception as e:
+            # observing the real objects through their public API raised: the objects are broken
+            failures.append({'signature': f'{line.split(" ")[0]}:observation-raises-{type(e).__name__}@{err_site(e)}',
+                             'op_index': i, 'what': f'op {i} `{line[:120]}`: observing the result raised '
+                                                    f'{type(e).__name__}: {str(e)[:100]}'})
+            break
         model_in.append(mi); outs.append(o)
         if line.startswith('get') and not o.startswith('err') and any(ch in o for ch in '123456789'): good = True
     return U, model_in, outs, failures, good
@@ -619,7 +644,8 @@ def run_impl(case: Case) -> ImplResult:
         if f['signature'] not in seen:
             seen.add(f['signature']); fs.append(f)
     key = hashlib.md5('\n'.join(case.ops).encode()).hexdigest() if good else None
-    return ImplResult(model_in=model_in, outs=outs, failures=fs, tags=sorted(U.tags), nontrivial=key)
+    tags = sorted(U.tags) + (['generation-stopped-early'] if case.meta.get('stopped') else [])
+    return ImplResult(model_in=model_in, outs=outs, failures=fs, tags=tags, nontrivial=key)
 
 
 def protect_prefix(case):
@@ -640,6 +666,10 @@ GROUP_COMPS = {1: [[1]], 2: [[1, 1], [1, 3], [3, 1], [1, 7]], 3: [[1, 1, 2], [2,
 SYN_ALIASES = ['foo', 'bar baz', 'qux', 'a,b', 'x(1)', 'H2O', 'C2H6O', 'water', 'size', 'Ethanol', 'l', 'g', 'q', 'Zed', 'n-1']
 
 
+class Stop(Exception):
+    """the real objects are in a state in which the history cannot usefully be continued"""
+
+
 class Gen:
     """Builds a history adaptively on the real objects (so that most operations are valid)."""
 
@@ -651,7 +681,10 @@ class Gen:
 
     def do(self, line):
         self.ops.append(line)
-        self.U.apply(line, len(self.ops) - 1, self.fail)
+        try:
+            self.U.apply(line, len(self.ops) - 1, self.fail)
+        except Exception:
+            raise Stop()
 
     # ---- chemicals ---------------------------------------------------------
     def recipe(self, n):
@@ -678,7 +711,9 @@ class Gen:
             before = len(self.U.sets)
             self.do('chems ' + ' '.join(self.recipe(n)))
             if len(self.U.sets) > before: return len(self.U.sets) - 1
+        before = len(self.U.sets)
         self.do('chems Water Ethanol')
+        if len(self.U.sets) == before: raise Stop()
         return len(self.U.sets) - 1
 
     def accepted(self, s):
@@ -822,8 +857,22 @@ class Gen:
             self.do(f'get {n} {show_key(key)}')
 
 
-def gen_small(rng):
-    g = Gen(rng)
+def stoppable(f):
+    def wrapper(rng, *a):
+        g = Gen(rng)
+        meta = {'kind': f.__name__[4:]}
+        try:
+            f(g, rng, *a)
+        except Stop:
+            meta['stopped'] = 'real objects unusable'
+        except Exception as e:          # e.g. the generator reading `.size` of an object a defect has corrupted
+            meta['stopped'] = f'{type(e).__name__}: {str(e)[:80]}'
+        return Case(g.ops, meta)
+    return wrapper
+
+
+@stoppable
+def gen_small(g, rng):
     n = rng.choice([1, 2, 3, 3, 4, 5, 6, 7, 8])
     s = g.new_set(n)
     g.define_some(s, rng.randrange(0, 4), rng.randrange(0, 4))
@@ -840,12 +889,11 @@ def gen_small(rng):
         if r < 0.04: g.define_some(s, 1, 0)
         elif r < 0.08: g.group(s)
         else: g.rw(rng.randrange(nix))
-    return Case(g.ops, {'kind': 'small'})
 
 
-def gen_cross(rng):
+@stoppable
+def gen_cross(g, rng):
     """two or three packages with overlapping chemicals; copy_like / mix_from through index_overlap, then CAS keys"""
-    g = Gen(rng)
     base = rng.sample(POOL, rng.randrange(3, 8))
     sets = []
     for _ in range(rng.choice([2, 2, 3])):
@@ -871,12 +919,11 @@ def gen_cross(rng):
             if rng.random() < 0.3: g.do(f'set {l} {show_key(key)} {show_data([dy(rng) for _ in key])}')
             g.do(f'get {l} {show_key(key)}')
         else: g.rw(l)
-    return Case(g.ops, {'kind': 'cross'})
 
 
-def gen_churn(rng, tier):
+@stoppable
+def gen_churn(g, rng, tier):
     """fill and evict both memo dictionaries: > 600 distinct keys on one (phases, chemicals) memo"""
-    g = Gen(rng)
     n = rng.choice([1, 2, 3, 4, 5, 6, 7, 8])
     s = g.new_set(n)
     g.define_some(s, 2, 2)
@@ -928,7 +975,6 @@ def gen_churn(rng, tier):
             g.do(f'get 1 {ph}')
             distinct[1] = set()
     for pi, pt in probes: g.do(f'get {pi} {pt}')
-    return Case(g.ops, {'kind': 'churn'})
 
 
 def generate(rng, tier, index, nworkers):
@@ -954,7 +1000,7 @@ def corpus():
              for b in ('Ethanol', 'ethanol', '64-17-5', 'Water', 'C2H6O')
              for c in ('Methanol', 'CH4O', '67-56-1', 'methanol', 'Water', 'H2O', 'Ethanol', 'ethanol')]
     many4 = [x.replace('(g,', '(*,') for x in many3[:120]]
-    return [
+    cases = [
         # 1. the 501st distinct key of a MaterialIndexer (trim_cache)
         Case([W, 'cix 0', 'mix 0 lg', 'set 1 l v:1,2,4', 'set 1 g v:8,0,16', 'get 1 Water'] + many + many2 + many3 + many4
              + ['get 1 Water', 'get 1 (l,Water)'], {'kind': 'corpus-trim'}),
@@ -976,5 +1022,10 @@ def corpus():
               'alias 0 Ethanol EtOH', 'alias 0 Propanol EtOH', 'alias 0 Ethanol size', 'group 0 Alc Ethanol,Propanol,Isopropanol 1,2,5',
               'cix 0', 'set 0 * v:1,2,4,8,16,32', 'get 0 Alc', 'get 0 (EtOH,Alc,qux)', 'set 0 (Alc,bar%20baz) s:8', 'get 0 *',
               'set 0 [Alc,X1] v:16,3', 'get 0 *', 'get 0 C2H6O', 'get 0 foo', 'mix 0 sL', 'set 1 (S,Alc) s:8', 'get 1 (*,Alc)',
-              'get 1 (l,EtOH)', 'get 1 L', 'get 1 g', 'set 1 (*,(EtOH,Alc)) v:1,8', 'get 1 (*,*)'], {'kind': 'corpus-names'}),
+              'get 1 (l,EtOH)', 'get 1 L', 'get 1 g', 'set 1 (*,(EtOH,Alc)) v:1,8', 'get 1 (*,Alc)'], {'kind': 'corpus-names'}),
     ]
+    drop = set()
+    if not GEN_PHASE_ELLIPSIS: drop.add('corpus-phase-ellipsis')
+    if not GEN_REDEFINE_GROUPS: drop.add('corpus-redefine')
+    if not GEN_PHASE_LETTER_ALIAS: drop.add('corpus-phase-alias')
+    return [c for c in cases if c.meta['kind'] not in drop]
